@@ -12,6 +12,7 @@ import (
 	"fmt"
 	"net/http"
 	"net/http/httptest"
+	"os"
 	"strings"
 	"sync"
 	"sync/atomic"
@@ -200,7 +201,11 @@ func startStandby(endpoint string, store ha.SessionStore) *ha.HASyncer {
 	// http.Client.Timeout (= RequestTimeout) also bounds the life of the stream request: keep it far
 	// beyond the duration of a case so that the only disconnections are the ones the harness makes
 	cfg.RequestTimeout = 10 * time.Minute
-	sb := ha.NewHASyncer(cfg, store, zap.NewNop())
+	lg := zap.NewNop()
+	if os.Getenv("C13_DEBUG_STACKS") != "" {
+		lg, _ = zap.NewDevelopment()
+	}
+	sb := ha.NewHASyncer(cfg, store, lg)
 	sb.VerifSetBackoff(time.Millisecond, 4*time.Millisecond)
 	if err := sb.Start(); err != nil {
 		panic("harness: standby Start: " + err.Error())
@@ -222,17 +227,19 @@ func TestPropLinkGate(t *testing.T) {
 
 func genLinkCase() *rapid.Generator[linkCase] {
 	return rapid.Custom(func(t *rapid.T) linkCase {
-		avoidGap := vstat.IsListed(sigGap) && rapid.IntRange(0, 9).Draw(t, "exerciseGap") >= 4
+		// the steering draws are unconditional so that fail files replay identically listed or not
+		avoidGap := rapid.IntRange(0, 9).Draw(t, "exerciseGap") >= 4 && vstat.IsListed(sigGap)
 		n := rapid.IntRange(1, 3).Draw(t, "episodes")
 		var c linkCase
-		c.NoHeldDelete = vstat.IsListed(sigLoopFullStale) && rapid.IntRange(0, 9).Draw(t, "exerciseStale") >= 4
+		c.NoHeldDelete = rapid.IntRange(0, 9).Draw(t, "exerciseStale") >= 4 && vstat.IsListed(sigLoopFullStale)
 		for i := 0; i < n; i++ {
 			e := linkEpisode{
 				Away:      genChanges(0, 5).Draw(t, "away"),
 				Connected: genChanges(0, 6).Draw(t, "connected"),
 			}
-			if !avoidGap {
-				e.Between = genChanges(0, 3).Draw(t, "between")
+			e.Between = genChanges(0, 3).Draw(t, "between")
+			if avoidGap {
+				e.Between = nil
 			}
 			c.Episodes = append(c.Episodes, e)
 		}
